@@ -21,7 +21,7 @@ RULE = ('source port trees to depth 3 over names {a, ab, abc, b, x} (so names ar
         'selects a strict subset')
 RULE += ('; also: empty namespaces, a reused options dictionary, targets below existing namespaces, a second narrower exposure of the same class, a destination port under the name of an excluded source port')
 ASSUMPTIONS = ['an empty include list is treated by the code as "no filter" and is outside the quantifier', 'reference model written from the property statement']
-REQUIRED = ['other_separator', 'deep_targets', 'path_lookups', 'deep_path_lookups', 'exposes', 'include_cases', 'exclude_cases', 'prefix_sibling_cases', 'nested_rule_cases', 'attr_checks', 'mutation_probes', 'both_rejected',
+REQUIRED = ['target_had_properties_of_its_own', 'other_separator', 'deep_targets', 'path_lookups', 'deep_path_lookups', 'exposes', 'include_cases', 'exclude_cases', 'prefix_sibling_cases', 'nested_rule_cases', 'attr_checks', 'mutation_probes', 'both_rejected',
             'namespace_option_cases', 'preexisting_kept', 'options_reused', 're_exposures', 'own_port_under_excluded_name', 'renamed_source_ports']
 BOUNDS = {'quick': '40 trees x all single rules and pairs', 'thorough': '600 trees, rule sets up to 3'}
 NAMES = ['a', 'ab', 'abc', 'b', 'x']
@@ -181,6 +181,9 @@ def gen_cases(tier, seed):
                        'renamed': t % 3 == 1, 'slash': t % 4 == 3}
         # include together with exclude is rejected
         yield {'kind': kind, 'tree': tree, 'top': top_attrs, 'mode': 'both', 'rules': [allp[0]], 'target': None, 'options': {}, 'pre': False}
+        # ... also when one of the two rule sets is given but empty (a computed rule set that came out empty)
+        for variant in ('empty-include', 'empty-exclude'):
+            yield {'kind': kind, 'tree': tree, 'top': top_attrs, 'mode': 'both', 'rules': [allp[0]], 'target': None, 'options': {}, 'pre': False, 'both_variant': variant}
 
 
 # --- reference model -------------------------------------------------------------------------
@@ -273,6 +276,7 @@ class _Src:
 def run_case(case):
     V = judges.V
     kind = case['kind']
+    obs_pre_root = 0
     slash = bool(case.get('slash'))
     sep = '/' if slash else '.'
 
@@ -293,6 +297,12 @@ def run_case(case):
         (dest.input if kind == 'in' else dest.output)(P('keep.me'), required=False)
         # a namespace of the destination's own that has no ports yet, with properties that are not the defaults
         droot['emp'] = type(droot)('emp', dynamic=True, help='mine-emp', required=False)
+        if not case['target']:
+            # ... and properties of its own on the namespace the ports go into: after the exposure that namespace has the source's
+            # (also where the source's value is None), unless the options say otherwise
+            droot.help = 'mine-root'
+            droot.validator = v_pos
+            obs_pre_root = 1
     emp_before = droot['emp'] if case['pre'] else None
     own_excluded = []
     if case['pre'] and case['mode'] == 'exclude' and not case['target']:
@@ -305,14 +315,17 @@ def run_case(case):
     pre_desc = describe(droot)
     expose = dest.expose_inputs if kind == 'in' else dest.expose_outputs
     obs = {'exposes': 1, 'include_cases': 0, 'exclude_cases': 0, 'prefix_sibling_cases': 0, 'nested_rule_cases': 0, 'attr_checks': 0,
-           'renamed_source_ports': int(bool(case.get('renamed'))), 'other_separator': int(slash), 'deep_targets': int(str(case.get('target') or '').count('.') >= 2), 'mutation_probes': 0, 'both_rejected': 0, 'namespace_option_cases': 0, 'preexisting_kept': 0, 'options_reused': 0}
+           'renamed_source_ports': int(bool(case.get('renamed'))), 'target_had_properties_of_its_own': obs_pre_root, 'other_separator': int(slash), 'deep_targets': int(str(case.get('target') or '').count('.') >= 2), 'mutation_probes': 0, 'both_rejected': 0, 'namespace_option_cases': 0, 'preexisting_kept': 0, 'options_reused': 0}
     viol = []
     mode, rules = case['mode'], case['rules']
     shape = '%s:%s' % (mode, kind)
     if mode == 'both':
+        variant = case.get('both_variant', 'both')
+        inc = [] if variant == 'empty-include' else [P(r) for r in rules]
+        exc = () if variant == 'empty-exclude' else [P(r) for r in rules]
         try:
-            expose(src_cls, include=[P(r) for r in rules], exclude=[P(r) for r in rules])
-            viol.append(V('both-accepted', 'both-accepted:' + kind, 'include together with exclude was accepted'))
+            expose(src_cls, include=inc, exclude=exc)
+            viol.append(V('both-accepted', 'both-accepted:%s:%s' % (kind, variant), 'include=%r together with exclude=%r was accepted' % (inc, exc)))
         except ValueError:
             obs['both_rejected'] = 1
         return {'viol': viol, 'obs': obs, 'key': case, 'nontrivial': True, 'sample': {'mode': 'both', 'rules': rules}}
